@@ -296,7 +296,7 @@ fn main() {
             if !text.is_ascii() { out.count("texts_multibyte", 1); }
             // spec, Rust side (bulk): offsets / positions / text = slice when not normalised
             let s_ok = spans_ok(&text, &toks);
-            out.spec_checked(s_ok, json!({"what": "token offsets outside the text / off a boundary / positions decrease", "case": desc, "tokens": format!("{:?}", toks)}));
+            out.spec_checked(s_ok, if s_ok { json!(null) } else { json!({"what": "token offsets outside the text / off a boundary / positions decrease", "case": desc, "tokens": format!("{:?}", &toks[..toks.len().min(200)])}) });
             let unnormalised = drop_only(&fls);
             let t_ok = !unnormalised || texts_ok(&text, &toks);
             let small = text.chars().count() <= 120 && toks.len() <= 150;
